@@ -466,6 +466,17 @@ func scaledInput(family string, n int) string {
 			fmt.Fprintf(&sb, "A%d\tEQU\tA%d+A%d\n", i, i-1, i-1)
 		}
 		fmt.Fprintf(&sb, "\tMOV AX,A%d\n", depth)
+	case "equmuldouble", "equproddouble":
+		// definitions are stored expanded: A(i) EQU A(i-1)*1+A(i-1)*1 (A0 undefined) doubles the stored text per line
+		depth := n / 250
+		form := "A%d*1+A%d*1"
+		if family == "equproddouble" {
+			form = "(A%d+1)*(A%d+2)"
+		}
+		for i := 1; i <= depth; i++ {
+			fmt.Fprintf(&sb, "A%d\tEQU\t"+form+"\n", i, i-1, i-1)
+		}
+		fmt.Fprintf(&sb, "\tDW A%d\n\tNOP\n", depth)
 	case "parensname":
 		// parentheses nested around something that does not fold to a number (a label, an undefined name, an
 		// EQU of a label), in several operand positions; depth 4 .. 40 .. 400
@@ -478,7 +489,7 @@ func scaledInput(family string, n int) string {
 	return sb.String()
 }
 
-var scaleFamilies = []string{"statements", "dblist", "parens", "sum", "labels", "equs", "branches", "longline", "equdouble", "parensname"}
+var scaleFamilies = []string{"statements", "dblist", "parens", "sum", "labels", "equs", "branches", "longline", "equdouble", "parensname", "equmuldouble", "equproddouble"}
 
 var propC13 = &Prop[CrashCase]{
 	ID:     "C13",
@@ -508,7 +519,7 @@ var propC13 = &Prop[CrashCase]{
 			}
 			for j := rapid.IntRange(1, 5).Draw(t, "identn"); j > 0; j-- {
 				id := rapid.SampledFrom(idents).Draw(t, "ident")
-				use := rapid.SampledFrom([]string{"%s:\n", "\tJMP %s\n", "\tCALL %s\n", "\tJE %s\n", "%s\tEQU\t5\n", "\tMOV AX,%s\n", "\tDW %s\n", "\tGLOBAL %s\n", "\tEXTERN %s\n", "\tMOV AX,[%s]\n", "\tLGDT [%s]\n", "\tDB %s\n", "%s:\n\tJMP %s\n", "\tJMP %s\n%s:\n", "\tMOV EAX,%s+1\n", "\tPUSH %s\n"}).Draw(t, "identuse")
+				use := rapid.SampledFrom([]string{"%s:\n", "\tJMP %s\n", "\tCALL %s\n", "\tJE %s\n", "%s\tEQU\t5\n", "\tMOV AX,%s\n", "\tDW %s\n", "\tGLOBAL %s\n", "\tEXTERN %s\n", "\tMOV AX,[%s]\n", "\tLGDT [%s]\n", "\tDB %s\n", "%s:\n\tJMP %s\n", "\tJMP %s\n%s:\n", "\tMOV EAX,%s+1\n", "\tPUSH %s\n", "\tJMP DWORD %s*8:0x1b\n", "\tCALL 2*%s:0\n", "\tDW 2*%s*3\n", "\tJMP 8:%s*2\n"}).Draw(t, "identuse")
 				n := strings.Count(use, "%s")
 				fmt.Fprintf(&sb, use, []any{id, id}[:n]...)
 			}
@@ -529,13 +540,13 @@ var propC13 = &Prop[CrashCase]{
 					}
 					return fmt.Sprintf("E%d", j)
 				}
-				body := rapid.SampledFrom([]string{"%s", "%s+1", "%s*2", "%s+%s", "%s-%s", "[%s]", "[%s+4]", "8:%s", "(%s)", "%s/%s", "WORD [%s]"}).Draw(t, "equform")
+				body := rapid.SampledFrom([]string{"%s", "%s+1", "%s*2", "%s+%s", "%s-%s", "[%s]", "[%s+4]", "8:%s", "%s:8", "%s*8:0x1b", "2*%s:%s", "(%s)", "%s/%s", "WORD [%s]", "2*%s*3", "512*%s/4"}).Draw(t, "equform")
 				n := strings.Count(body, "%s")
 				args := []any{ref(a), ref(b)}[:n]
 				fmt.Fprintf(&sb, "E%d\tEQU\t%s\n", i, fmt.Sprintf(body, args...))
 			}
 			for j := rapid.IntRange(1, 4).Draw(t, "equuses"); j > 0; j-- {
-				use := rapid.SampledFrom([]string{"\tMOV AX,%s\n", "\tDW %s\n", "\tDB %s,1\n", "\tJMP %s\n", "\tMOV AX,[%s]\n", "\tADD BX,%s+1\n", "\tRESB %s\n", "\tPUSH %s\n", "\tCALL %s\n"}).Draw(t, "equuse")
+				use := rapid.SampledFrom([]string{"\tMOV AX,%s\n", "\tDW %s\n", "\tDB %s,1\n", "\tJMP %s\n", "\tMOV AX,[%s]\n", "\tADD BX,%s+1\n", "\tRESB %s\n", "\tPUSH %s\n", "\tCALL %s\n", "\tJMP DWORD %s*8:0x1b\n", "\tCALL 2*%s:0\n", "\tMOV AX,%s*2:5\n", "\tJMP %s:5\n", "\tDW 2*%s*3\n", "\tDD 512*%s/4\n"}).Draw(t, "equuse")
 				fmt.Fprintf(&sb, use, fmt.Sprintf("E%d", rapid.IntRange(0, k-1).Draw(t, "equusen")))
 			}
 			return CrashCase{Src: sb.String(), Kind: "equgraph"}
